@@ -82,6 +82,9 @@ Proof.
   apply kM_bind; [apply kM_try; assumption|]. intros o. apply kM_seq; [apply kM_pop_scope|apply kM_lift].
 Qed.
 
+Lemma kM_add_defset : forall l, keepsM (add_defset l).
+Proof. intros l s. unfold add_defset; simpl. now rewrite mcs_add_pos. Qed.
+#[export] Hint Resolve kM_add_defset : keepsM.
 #[export] Hint Resolve kM_ret kM_none kM_lift kM_get kM_bad kM_here kM_state kM_error kM_err kM_emit kM_leaf_of
   kM_add_reference kM_add_record kM_add_anonymous_def kM_add_leaf kM_add_leaf_nopos kM_record_mut kM_push_file
   kM_pop_file kM_next_anonymous kM_push_scope kM_pop_scope kM_scopes_add_variable : keepsM.
@@ -628,15 +631,16 @@ Proof.
 Qed.
 
 (** a name that could not be resolved before the construct and that the construct did not define as a
-    (global) def cannot be resolved after it *)
+    (global) def or defset cannot be resolved after it *)
 Theorem out_of_scope_unresolved : forall files n x s nm,
     block_like x = true -> current_record_id s = None -> mc_scopes_valid s ->
-    resolve_id s nm = None -> find_def (snd (index_stmt files n x s)) nm = None ->
+    resolve_id s nm = None ->
+    find_def (snd (index_stmt files n x s)) nm = None -> find_defset (snd (index_stmt files n x s)) nm = None ->
     resolve_id (snd (index_stmt files n x s)) nm = None.
 Proof.
-  intros files n x s nm Hx Hr Hv H Hd. unfold resolve_id in *.
+  intros files n x s nm Hx Hr Hv H Hd Hds. unfold resolve_id in *.
   rewrite (locals_do_not_leak files n x s nm Hx Hr Hv).
-  destruct (find_local s nm); [discriminate|]. now rewrite Hd.
+  destruct (find_local s nm); [discriminate|]. now rewrite Hd, Hds.
 Qed.
 
 (** a use of a name that does not resolve is reported at the use and records nothing *)
